@@ -87,6 +87,9 @@ Record ctx_table := {
   (* CpuContext::valid_registers: `let regs = match valid { All => <ct_iter_all>, Some(valid) => <ct_iter_some> }` *)
   ct_iter_all : names_src;
   ct_iter_some : names_src;
+  (* CpuContext::registers: None = `self.valid_registers(&MinidumpContextValidity::All)`; Some src = it builds
+     `CpuRegisters { regs: <src>, context: self }` itself *)
+  ct_regs_direct : option names_src;
   (* CpuRegisters::next: `let reg = match &mut self.regs { Slice(iter) => iter.<next() | nth(K)>, Set(iter) => iter.<next() | nth(K)> }?;
      Some((reg, <ct_next_val>))`: how many names each arm consumes before the one it yields (next() = 0, nth(K) = K) and the
      value paired with the name, an expression over [AVar v_ga] = `self.context.get_register_always(reg)` *)
